@@ -102,6 +102,19 @@ def rule_b(model, rep):
                       witness="CryptContext(['postgres_md5']).verify('pw', None, user='u') raises TypeError('user must be str or bytes, not None') instead of returning False")
     else:
         rep.hold(R, site(CTX, "CryptContext.dummy_verify"), f"context keywords forwarded; schemes needing user: {sorted(needs_user)}")
+    # the built-in dummy secret must be hashable by every scheme under every policy: not longer than the smallest truncation limit
+    ds = model.class_const((CTX, "CryptContext"), "_dummy_secret")
+    limits = {}
+    for h in table:
+        if h.kind in ("class", "factory") and h.cref is not None:
+            ts = table.const(h, "truncate_size")
+            if isinstance(ts, int) and not isinstance(ts, bool):
+                limits[h.name] = ts
+    lo = min(limits.values()) if limits else None
+    rep.check(isinstance(ds, str) and lo is not None and 0 < len(ds.encode("utf-8")) <= lo, R, site(CTX, "CryptContext._dummy_secret"),
+              f"{ds!r} is {len(ds.encode('utf-8')) if isinstance(ds, str) else '?'} bytes; smallest truncate_size is {lo} ({', '.join(sorted(k for k, v in limits.items() if v == lo))})",
+              "the dummy secret is not longer than the smallest truncation limit of a registered scheme, so a context with truncate_error=True can still hash it",
+              witness="CryptContext(['des_crypt'], des_crypt__truncate_error=True).verify('x', None) raises PasswordTruncateError instead of returning False")
     fn = model.func(CTX, "CryptContext._dummy_hash")
     rep.check(returns(fn) == ["self.hash(self._dummy_secret)"], R, site(CTX, "CryptContext._dummy_hash"), "; ".join(returns(fn)), "the dummy hash is made by the context's own default scheme")
     # cache dropped on every policy replacement: unconditional call in load() after the commit point
@@ -166,8 +179,15 @@ def rule_c(model, rep):
     fn = model.func(M, U + ".enable")
     t = qtext(fn)
     loop = [n for n in walk_no_nested(fn) if isinstance(n, ast.For)]
-    ok = len(loop) == 1 and ast.unparse(loop[0].iter) == "cls._disable_prefixes"
-    rep.check(ok, R, site(M, U + ".enable"), ast.unparse(loop[0].iter) if loop else "<none>", "enable() tries every marker prefix")
+    it = ast.unparse(loop[0].iter) if len(loop) == 1 else ""
+    ok = len(loop) == 1 and "cls._disable_prefixes" in it
+    rep.check(ok, R, site(M, U + ".enable"), it or "<none>", "enable() tries every marker prefix")
+    # using(marker=...) accepts any string identify() accepts -- identify() looks at the first character only, so markers may be
+    # longer than one character ('*LK*', '!!'); enable() must strip the *configured* marker as a whole before the single characters
+    first = it.replace(" ", "").lstrip("(").split(",")[0] if it else ""
+    rep.check(first == "cls.default_marker", R, site(M, U + ".enable") + " configured marker", f"prefixes tried: {it}",
+              "the configured marker is stripped as a whole (before the one-character fallbacks)",
+              witness="unix_disabled.using(marker='*LK*'): enable(disable(h)) returns 'LK*' + h -- not the original hash; enable(disable()) returns 'LK*' instead of raising")
     if ok:
         lb = ast.unparse(loop[0])
         rep.check("if hash.startswith(prefix):" in lb and "orig = hash[len(prefix):]" in lb and "if orig:\n            return orig" in lb and "raise ValueError('cannot restore original hash')" in lb, R,
